@@ -90,6 +90,10 @@ func r12b(c *core.Ctx) {
 			add = call
 		case core.M("internal/dnsmsg.PopEDNS0"):
 			pop = call
+		default:
+			if removesOpt(call) {
+				pop = call
+			}
 		}
 	}
 	if add == nil || pop == nil {
@@ -176,7 +180,7 @@ func r12b(c *core.Ctx) {
 	// addOrReplaceOpt: pop + append(newEDNS0)
 	popIn, appendNew := false, false
 	for _, call := range core.Calls(aro) {
-		if core.CallName(call) == core.M("internal/dnsmsg.PopEDNS0") {
+		if core.CallName(call) == core.M("internal/dnsmsg.PopEDNS0") || removesOpt(call) {
 			popIn = true
 		}
 		if core.CallName(call) == "builtin.append" {
@@ -213,6 +217,22 @@ func r12b(c *core.Ctx) {
 }
 
 // rangesOver: block b lies in a loop that iterates the slice whose Expr is e.
+// removesOpt: the call goes to a module function that applies PopEDNS0 to its own first parameter on every path
+// (dnsmsg.RemoveEDNS0: pop and release).
+func removesOpt(call ssa.CallInstruction) bool {
+	h := core.StaticCallee(call)
+	if h == nil || h.Blocks == nil || h.Pkg == nil || !core.IsModule(h.Pkg.Pkg) || len(h.Params) == 0 {
+		return false
+	}
+	var pop ssa.Instruction
+	for _, hc := range core.Calls(h) {
+		if core.CallName(hc) == core.M("internal/dnsmsg.PopEDNS0") && len(hc.Common().Args) == 1 && hc.Common().Args[0] == ssa.Value(h.Params[0]) {
+			pop = hc
+		}
+	}
+	return pop != nil && core.Reach(h, nil, core.IsReturn, func(in ssa.Instruction) bool { return in == pop }) == nil
+}
+
 func rangesOver(fn *ssa.Function, b *ssa.BasicBlock, e string) bool {
 	found := false
 	core.EachInstr(fn, func(bb *ssa.BasicBlock, _ int, in ssa.Instruction) {
